@@ -142,13 +142,19 @@ def check_no_hand_parsing(ctx: Ctx):
         return bad, fs
 
     # the characters csv.writer reacts to: the quote character, the delimiter, line feeds (cell gets quoted,
-    # quotes doubled) - a quoted cell may hold any line break, which a reader opened with newline="" hands back as is
-    names = ["plain", 's"q', '"', 'a""b', " lead", "x,y", "q'r", "trail ", "two\nlines", "dos\r\nbreak"]
-    bad, fs = session(names, "quoted")
-    if bad is not None:
-        raw = fs.__dict__.get("raw_reads", [])
-        sites = sorted({(q, getattr(n, "lineno", 0)) for _, n, q in raw})
-        ctx.decide("R17.8", ev, raw[0][1] if raw else ev.node, "adversarial-names:aggregator", "finished subjects are recognised whatever characters their names contain (names quoted by csv.writer are recovered exactly when the file is read back)", not bad, {"not_recognised": bad, "line_by_line_reads": [f"{q}:{ln}" for q, ln in sites]} if bad else None)
+    # quotes doubled) - a quoted cell may hold any line break, which a reader opened with newline="" hands back
+    # as is.  One file per kind of name: a reader that switches strategy on what it sees anywhere in the file
+    # (a fast path with a fallback) must be right for each kind on its own
+    bad_all, sites_all, undecided = {}, set(), False
+    for tag, names in (("quotes", ["plain", 's"q', '"', 'a""b', " lead", "x,y", "q'r", "trail "]), ("line-feed", ["plain", "two\nlines"]), ("crlf", ["plain", "dos\r\nbreak"])):
+        bad, fs = session(names, tag)
+        if bad is None:
+            undecided = True
+            continue
+        bad_all.update(bad)
+        sites_all |= {(q, getattr(n, "lineno", 0)) for _, n, q in fs.__dict__.get("raw_reads", [])}
+    if not undecided:
+        ctx.decide("R17.8", ev, ev.node, "adversarial-names:aggregator", "finished subjects are recognised whatever characters their names contain (names quoted by csv.writer are recovered exactly when the file is read back)", not bad_all, {"not_recognised": bad_all, "line_by_line_reads": [f"{q}:{ln}" for q, ln in sorted(sites_all)]} if bad_all else None)
     # a carriage return without a line feed: csv.writer quotes only the characters of its lineterminator
     # (before Python 3.13), the reader ends a row at any bare carriage return
     bad, fs = session(["mac\rbreak"], "lone-carriage-return")
